@@ -464,6 +464,57 @@ func c05(env *Env, rep *Report) {
 				distinct++
 			}
 		}
+		// the authentication backend fails once (gRPC error) and recovers: the failed attempt never reaches the
+		// handler, whatever the credentials; the next attempt is judged on its own
+		if !cfg.has("openid") {
+			for _, scheme := range []string{"basic", "ntlm"} {
+				if (scheme == "basic" && !cfg.has("local")) || (scheme == "ntlm" && !cfg.has("ntlm")) {
+					continue
+				}
+				for _, fails := range []int{1, 2} {
+					distinct++
+					rep.add("executions", 3)
+					attempt := func(user, pass string) bool {
+						if scheme == "basic" {
+							c, err := w.gw.Dial()
+							if err != nil {
+								return false
+							}
+							defer c.Close()
+							c.SetDeadline(time.Now().Add(15 * time.Second))
+							raw, _ := methodRequest("ws", []string{basicHdr(user, pass)})
+							c.Write([]byte(raw))
+							return ReadResponse(bufio.NewReader(c)).Status == 101
+						}
+						ok, _ := w.ntlmExchange("NTLM", user, pass, true, false)
+						return ok
+					}
+					w.auth.mu.Lock()
+					w.auth.FailNext = fails
+					w.auth.mu.Unlock()
+					first := attempt(userA, passA)
+					w.auth.mu.Lock()
+					w.auth.FailNext = 0
+					w.auth.mu.Unlock()
+					bad := attempt(userA, "wrong-password")
+					good := attempt(userA, passA)
+					rep.outcome(fmt.Sprintf("%s backend-fails=%d scheme=%s first=%v bad=%v good=%v", cfg, fails, scheme, first, bad, good))
+					what := fmt.Sprintf("scheme=%s, backend answers %d call(s) with an error: attempt during the failure reached=%v, wrong password afterwards reached=%v, right password afterwards reached=%v", scheme, fails, first, bad, good)
+					if first && (scheme == "basic" || fails >= 2) {
+						viol("handler-reached-while-the-authentication-backend-fails/"+scheme, what)
+					}
+					if bad {
+						viol("handler-reached-with-unconfirmed-credentials/after-backend-failure/"+scheme, what)
+					}
+					if !good {
+						viol("confirmed-credentials-do-not-reach-handler/after-backend-failure/"+scheme, what)
+					}
+					if cr := w.gw.Crashed(); cr != "" {
+						viol("panic", cr)
+					}
+				}
+			}
+		}
 		// two Basic requests in flight at once: every order of {request i reaches the backend, backend answers i}
 		if cfg.has("local") && !cfg.has("openid") {
 			distinct += w.basicInterleavings(viol, rep)
